@@ -20,6 +20,8 @@ pub enum Deps {
     Two,
     /// the same id listed twice
     TwoEqual,
+    /// three entries [a, b, a]: a repeated, not adjacent
+    ThreeAba,
 }
 
 pub fn step(sh: Shape, barrier: usize, deps: Deps, new_r: usize, new_w: usize) {
@@ -30,17 +32,18 @@ pub fn step(sh: Shape, barrier: usize, deps: Deps, new_r: usize, new_w: usize) {
 
     let n = sh.n();
     let mut dep: SmallVec<[SystemId; 4]> = SmallVec::new();
-    let mut d: [usize; 2] = [0, 0];
+    let mut d: [usize; 3] = [0, 0, 0];
     let nd = match deps {
         Deps::None => 0,
         Deps::One => 1,
         Deps::Two | Deps::TwoEqual => 2,
+        Deps::ThreeAba => 3,
     };
     if nd >= 1 {
         d[0] = any_below(n);
         dep.push(SystemId(d[0]));
     }
-    if nd == 2 {
+    if nd >= 2 {
         if deps == Deps::TwoEqual {
             d[1] = d[0];
         } else {
@@ -49,9 +52,13 @@ pub fn step(sh: Shape, barrier: usize, deps: Deps, new_r: usize, new_w: usize) {
         }
         dep.push(SystemId(d[1]));
     }
+    if nd == 3 {
+        d[2] = d[0];
+        dep.push(SystemId(d[2]));
+    }
     // positions of the dependencies (comparisons only)
-    let ds = [sh.stage_of(d[0]), sh.stage_of(d[1])];
-    let dg = [sh.group_of(d[0]), sh.group_of(d[1])];
+    let ds = [sh.stage_of(d[0]), sh.stage_of(d[1]), sh.stage_of(d[2])];
+    let dg = [sh.group_of(d[0]), sh.group_of(d[1]), sh.group_of(d[2])];
 
     let tgt = b.verif_insertion_target(&r, &w, &mut dep, time);
 
@@ -121,7 +128,7 @@ pub fn step(sh: Shape, barrier: usize, deps: Deps, new_r: usize, new_w: usize) {
             }
             if before_barrier_dep {
                 assert!(forced, "C10[dep-before-barrier]: stage skipped although nothing in it forces that");
-            } else if deps == Deps::TwoEqual {
+            } else if deps == Deps::TwoEqual || deps == Deps::ThreeAba {
                 assert!(forced, "C10[duplicate-dep]: stage skipped although nothing in it forces that");
             } else {
                 assert!(forced, "C10: stage skipped although nothing in it forces that");
